@@ -1,7 +1,9 @@
 //! Parser / printer / encoder operations (second half of the protocol).
 use crate::codec::{dec, s};
 use lambda_calculus::data::num::convert::Encoding;
-use lambda_calculus::parser::{self, CToken, ParseError, Token};
+use lambda_calculus::parser::ParseError;
+#[cfg(feature = "hidden_api")]
+use lambda_calculus::parser::{self, CToken, Token};
 use lambda_calculus::term::LAMBDA;
 use lambda_calculus::*;
 
@@ -32,9 +34,12 @@ fn show_err(e: &ParseError) -> String {
         ParseError::InvalidCharacter((i, c)) => format!("err IC {} {}", i, *c as u32),
         ParseError::InvalidExpression => "err IE".into(),
         ParseError::EmptyExpression => "err EE".into(),
+        #[allow(unreachable_patterns)]
+        _ => "err OTHER".into(),
     }
 }
 
+#[cfg(feature = "hidden_api")]
 fn show_tok(t: &Token) -> String {
     match t {
         Token::Lambda => "L".into(),
@@ -44,10 +49,12 @@ fn show_tok(t: &Token) -> String {
     }
 }
 
+#[cfg(feature = "hidden_api")]
 fn show_name(n: &str) -> String {
     n.chars().map(|c| (c as u32).to_string()).collect::<Vec<_>>().join(".")
 }
 
+#[cfg(feature = "hidden_api")]
 pub fn show_ctok(t: &CToken) -> String {
     match t {
         CToken::CLambda(n) => format!("CL:{}", show_name(n)),
@@ -57,6 +64,7 @@ pub fn show_ctok(t: &CToken) -> String {
     }
 }
 
+#[cfg(feature = "hidden_api")]
 fn dec_name(x: &str) -> Option<String> {
     if x.is_empty() {
         return Some(String::new());
@@ -64,6 +72,7 @@ fn dec_name(x: &str) -> Option<String> {
     x.split('.').map(|p| p.parse::<u32>().ok().and_then(char::from_u32)).collect()
 }
 
+#[cfg(feature = "hidden_api")]
 fn dec_ctok(x: &str) -> Option<CToken> {
     if x == "(" {
         Some(CToken::CLparen)
@@ -78,6 +87,7 @@ fn dec_ctok(x: &str) -> Option<CToken> {
     }
 }
 
+#[cfg(feature = "hidden_api")]
 fn dec_tok(x: &str) -> Option<Token> {
     if x == "L" {
         Some(Token::Lambda)
@@ -92,6 +102,7 @@ fn dec_tok(x: &str) -> Option<Token> {
     }
 }
 
+#[cfg(feature = "hidden_api")]
 pub fn show_expr(e: &parser::Expression) -> String {
     use parser::Expression::*;
     match e {
@@ -105,6 +116,7 @@ pub fn show_expr(e: &parser::Expression) -> String {
     }
 }
 
+#[cfg(feature = "hidden_api")]
 fn dec_expr<'a, I: Iterator<Item = &'a str>>(it: &mut I) -> Option<parser::Expression> {
     use parser::Expression::*;
     let w = it.next()?;
@@ -151,6 +163,8 @@ pub fn into_num(e: Encoding, n: usize) -> Term {
         Encoding::Parigot => n.into_parigot(),
         Encoding::StumpFu => n.into_stumpfu(),
         Encoding::Binary => n.into_binary(),
+        #[allow(unreachable_patterns)]
+        _ => Var(0),
     }
 }
 
@@ -177,6 +191,7 @@ pub fn exec2<'a, I: Iterator<Item = &'a str>>(op: &str, it: &mut I) -> String {
         };
     }
     match op {
+        #[cfg(feature = "hidden_api")]
         "lexd" => {
             let sx = match read_string(it) { Some(x) => x, None => bad!() };
             match parser::tokenize_dbr(&sx) {
@@ -188,6 +203,7 @@ pub fn exec2<'a, I: Iterator<Item = &'a str>>(op: &str, it: &mut I) -> String {
                 Err(e) => show_err(&e),
             }
         }
+        #[cfg(feature = "hidden_api")]
         "lexc" => {
             let sx = match read_string(it) { Some(x) => x, None => bad!() };
             match parser::tokenize_cla(&sx) {
@@ -199,6 +215,7 @@ pub fn exec2<'a, I: Iterator<Item = &'a str>>(op: &str, it: &mut I) -> String {
                 Err(e) => show_err(&e),
             }
         }
+        #[cfg(feature = "hidden_api")]
         "conv" => {
             let n = num!();
             let mut cts = Vec::new();
@@ -213,6 +230,7 @@ pub fn exec2<'a, I: Iterator<Item = &'a str>>(op: &str, it: &mut I) -> String {
             v.extend(ts.iter().map(show_tok));
             v.join(" ")
         }
+        #[cfg(feature = "hidden_api")]
         "ast" => {
             let n = num!();
             let mut ts = Vec::new();
@@ -227,6 +245,7 @@ pub fn exec2<'a, I: Iterator<Item = &'a str>>(op: &str, it: &mut I) -> String {
                 Err(e) => show_err(&e),
             }
         }
+        #[cfg(feature = "hidden_api")]
         "fold" => {
             let n = num!();
             let mut es = Vec::new();
@@ -345,6 +364,8 @@ pub fn exec2<'a, I: Iterator<Item = &'a str>>(op: &str, it: &mut I) -> String {
                 Encoding::Parigot => IntoParigotNum::into_parigot((a, b)),
                 Encoding::StumpFu => (a, b).into_stumpfu(),
                 Encoding::Binary => (a, b).into_binary(),
+                #[allow(unreachable_patterns)]
+                _ => bad!(),
             })
         }
         "numopt" => {
@@ -360,6 +381,8 @@ pub fn exec2<'a, I: Iterator<Item = &'a str>>(op: &str, it: &mut I) -> String {
                 Encoding::Parigot => IntoParigotNum::into_parigot(v),
                 Encoding::StumpFu => v.into_stumpfu(),
                 Encoding::Binary => v.into_binary(),
+                #[allow(unreachable_patterns)]
+                _ => bad!(),
             })
         }
         "numres" => {
@@ -375,6 +398,8 @@ pub fn exec2<'a, I: Iterator<Item = &'a str>>(op: &str, it: &mut I) -> String {
                 Encoding::Parigot => IntoParigotNum::into_parigot(v),
                 Encoding::StumpFu => v.into_stumpfu(),
                 Encoding::Binary => v.into_binary(),
+                #[allow(unreachable_patterns)]
+                _ => bad!(),
             })
         }
         "tuple" => {
